@@ -19,6 +19,7 @@ type MwEvent struct {
 	Fresh bool // the Middleware was allocated in this function
 	Eff   Effect
 	State string // lock state when the event happens: U R W
+	Sec   int    // number of lock acquisitions before the event (critical-section index; 0 = before any)
 }
 
 type MwPath struct {
@@ -102,17 +103,33 @@ func buildMwTable(ctx *Ctx) *MwTable {
 		}
 		return p.DefaultPolicy(fn)
 	}
-	touches := func(fn *ssa.Function) bool {
+	// a function touches the state when it addresses a field of a Middleware
+	// itself or through a module function it calls statically (a snapshot
+	// helper, say), which the summary inlines
+	touchMemo := map[*ssa.Function]bool{}
+	var touches func(fn *ssa.Function) bool
+	touches = func(fn *ssa.Function) bool {
+		if v, ok := touchMemo[fn]; ok {
+			return v
+		}
+		touchMemo[fn] = false
+		res := false
 		for _, b := range fn.Blocks {
 			for _, ins := range b.Instrs {
 				if fa, ok := ins.(*ssa.FieldAddr); ok {
 					if isNamedPtr(fa.X.Type(), pkgRoot, "Middleware") {
-						return true
+						res = true
+					}
+				}
+				if c, ok := ins.(ssa.CallInstruction); ok {
+					if callee := c.Common().StaticCallee(); callee != nil && p.InModule(callee) && !opaque[callee] && len(callee.Blocks) > 0 && policy(callee) == PolInline && touches(callee) {
+						res = true
 					}
 				}
 			}
 		}
-		return false
+		touchMemo[fn] = res
+		return res
 	}
 	for _, fn := range p.Funcs {
 		if !touches(fn) {
@@ -141,6 +158,7 @@ func (t *MwTable) events(pa *Path) *MwPath {
 	mp := &MwPath{Path: pa}
 	state := "U"
 	held := ""
+	sec := 0
 	isMw := func(a *Term) bool { return a.Op == "faddr" && isNamedPtr(a.Args[0].Type, pkgRoot, "Middleware") }
 	for _, e := range pa.Effects {
 		switch {
@@ -153,7 +171,10 @@ func (t *MwTable) events(pa *Path) *MwPath {
 			} else {
 				mp.Problems = append(mp.Problems, "mutex operation on something other than the Middleware's lock: "+e.String())
 			}
-			ev := MwEvent{Kind: strings.ToLower(op), Base: base, Eff: e, State: state}
+			if op == "Lock" || op == "RLock" {
+				sec++
+			}
+			ev := MwEvent{Kind: strings.ToLower(op), Base: base, Eff: e, State: state, Sec: sec}
 			switch op {
 			case "Lock":
 				if state != "U" {
@@ -181,7 +202,7 @@ func (t *MwTable) events(pa *Path) *MwPath {
 			mp.Events = append(mp.Events, ev)
 		case (e.Kind == "load" || e.Kind == "store") && isMw(e.Args[0]):
 			a := e.Args[0]
-			ev := MwEvent{Kind: e.Kind, Base: a.Args[0].Key(), Field: a.Name, Eff: e, State: state, Fresh: a.Args[0].Op == "alloc"}
+			ev := MwEvent{Kind: e.Kind, Base: a.Args[0].Key(), Field: a.Name, Eff: e, State: state, Sec: sec, Fresh: a.Args[0].Op == "alloc"}
 			if e.Kind == "store" {
 				ev.Val = e.Args[1]
 			} else {
@@ -192,7 +213,7 @@ func (t *MwTable) events(pa *Path) *MwPath {
 			}
 			mp.Events = append(mp.Events, ev)
 		case e.Kind == "invoke" || e.Kind == "dyncall" || e.Kind == "call" || e.Kind == "go" || e.Kind == "defer":
-			mp.Events = append(mp.Events, MwEvent{Kind: "call", Eff: e, State: state})
+			mp.Events = append(mp.Events, MwEvent{Kind: "call", Eff: e, State: state, Sec: sec})
 		}
 	}
 	mp.End = state
